@@ -186,6 +186,45 @@ def factory_program(seq, leaf, order, base_init):
     return prog
 
 
+def selfcap_program(where, use, early, sub):
+    """`self` captured by a closure created inside an initialiser or a method: the closure is stored in a field / called at once / returned,
+    with and without an early return in the initialiser, in a base class and in a subclass that chains to it"""
+    get = ["lambda", [], [["return", cat(S("<"), sget("x"), S(">"))]], False]
+    bump = ["lambda", [], [["expr", sset("x", cat(sget("x"), S("+")))], ["return", SELF]], False]
+    body = [["expr", sset("x", S("x0"))]]
+    if use == "field":
+        body += [["expr", sset("g", get)], ["expr", sset("b", bump)]]
+    elif use == "call":
+        body += [["let", "b", bump], ["expr", call(V("b"))], ["expr", sset("g", get)], ["expr", sset("b", V("b"))]]
+    else:
+        body += [["let", "b", bump], ["expr", sset("seen", ["get", call(V("b")), "x"])], ["expr", sset("g", get)], ["expr", sset("b", V("b"))]]
+    if early:
+        body += [["if", ["bin", "==", V("flag"), N(1)], [["return", None]], None], ["expr", sset("late", S("late"))]]
+    methods = []
+    if where == "init":
+        methods.append(("method", "init", ["flag"], body))
+    else:
+        methods.append(("method", "init", ["flag"], [["expr", sset("x", S("pre"))], ["expr", sset("g", ["nil"])], ["expr", sset("b", ["nil"])], ["expr", sset("seen", ["nil"])], ["expr", sset("late", ["nil"])],
+                                                    ["expr", inv(SELF, "setup", V("flag"))]]))
+        methods.append(("method", "setup", ["flag"], body + [["return", SELF]]))
+    methods.append(("method", "who", [], [["return", cat(S("K:"), sget("x"))]]))
+    prog = [["class", "K", None, methods]]
+    cls = "K"
+    if sub:
+        prog.append(["class", "S", "K", [("method", "init", ["flag"], [["expr", ["super", "init", [V("flag")]]], ["expr", sset("own", ["lambda", [], [["return", cat(S("own:"), sget("x"))]], False])]]),
+                                         ("method", "who", [], [["return", cat(S("S>"), ["super", "who", []])]])]])
+        cls = "S"
+    for flag in (0, 1):
+        o = "o%d" % flag
+        prog += [["let", o, call(cls, N(flag))],
+                 ["print", [inv(V(o), "who"), call(["get", V(o), "g"]), ["get", call(["get", V(o), "b"]), "x"], call(["get", V(o), "g"]), ["get", V(o), "x"], inv(inv(V(o), "cls"), "name")]]]
+        if sub:
+            prog.append(["print", [call(["get", V(o), "own"])]])
+        if early:
+            prog.append(["try", [["print", [["get", V(o), "late"]]]], "e", None, [["print", [S("late!"), inv(inv(V("e"), "cls"), "name")]]]])
+    return prog
+
+
 class C03(Check):
     id = "C03"
     level = "exploration"
@@ -205,6 +244,11 @@ class C03(Check):
                     for shape in LV_SHAPES:
                         for compound in (False, True):
                             yield ("lvalue", tuple(of), tuple(inner_fields), sup, shape, compound)
+        for where in ("init", "method"):
+            for use in ("field", "call", "chain"):
+                for early in (False, True):
+                    for sub in (False, True):
+                        yield ("selfcap", where, use, early, sub)
         # class factories: the same class declaration evaluated several times and stacked
         for d in (1, 2, 3):
             for seq in itertools.product("FG", repeat=d):
@@ -219,11 +263,15 @@ class C03(Check):
             return lvalue_program(list(spec[1]), list(spec[2]), spec[3], spec[4], spec[5])
         if spec[0] == "factory":
             return factory_program(spec[1], spec[2], spec[3], spec[4])
+        if spec[0] == "selfcap":
+            return selfcap_program(*spec[1:])
         return program(A_INIT[spec[0]], spec[1], B_FIELDS[spec[2]], *spec[3:])
 
     def describe(self, spec):
         if spec[0] == "lvalue":
             return "lvalue shape=%s compound=%s outer fields=%s (super=%s) inner fields=%s" % (spec[4], spec[5], list(spec[1]), spec[3], list(spec[2]))
+        if spec[0] == "selfcap":
+            return "self captured by a closure inside %s, closure %s, early return=%s, subclass=%s" % spec[1:]
         if spec[0] == "factory":
             return "class factories stacked=%s leaf_subclass=%s call order=%s base_init=%s" % ("".join(spec[1]), spec[2], list(spec[3]), spec[4])
         return "A.init=%s B.super=%s B.fields=%s C.init=%s B.m=%s B.n=%s C.m=%s @syntax=%s" % (A_INIT[spec[0]], spec[1], B_FIELDS[spec[2]], *spec[3:])
